@@ -340,8 +340,9 @@ def _shard_entry(fn, prop, tier, seed, i, args):
 
 
 def hsettings(max_examples, **kw):
-    from hypothesis import settings, HealthCheck
-    base = dict(max_examples=max_examples, database=None, deadline=None, derandomize=False,
+    from hypothesis import settings, HealthCheck, Phase
+    base = dict(phases=[Phase.explicit, Phase.reuse, Phase.generate, Phase.target, Phase.shrink],
+                max_examples=max_examples, database=None, deadline=None, derandomize=False,
                 report_multiple_bugs=False, suppress_health_check=list(HealthCheck),
                 print_blob=False)
     base.update(kw)
